@@ -175,12 +175,25 @@ void EpollFdEvent::OnEventCallback(uint32_t events, void *obj)
     }
 
     //! 要先复制一份，因为在for中很可能会改动到d->fd_events，引起迭代器失效问题
-    auto tmp = d->fd_events;
-    for (auto event : tmp)
-        event->onEvent(tbox_events);
-
     if (events)
         LogWarn("unhandle events:%08X, fd:%d", events, d->fd);
+
+    if (d->fd_events.empty())
+        return;
+
+    //! hold a reference during the dispatch: a callback may destroy the last event of this fd, which would release d
+    EpollLoop *wp_loop = d->fd_events.front()->wp_loop_;
+    const int fd = d->fd;
+    ++d->ref;
+
+    auto tmp = d->fd_events;
+    for (auto event : tmp) {
+        //! an event disabled or destroyed by an earlier callback of this pass must not be called
+        if (std::find(d->fd_events.begin(), d->fd_events.end(), event) != d->fd_events.end())
+            event->onEvent(tbox_events);
+    }
+
+    wp_loop->unrefFdSharedData(fd);
 }
 
 void EpollFdEvent::onEvent(short events)
